@@ -305,7 +305,15 @@ func (ri *RedisInput) syncMeta(ctx context.Context, redisCli *redis.StandaloneRe
 		ri.logger.Errorf("channel SetRunId error : offset(%v), err(%v)", sOffset, err)
 		return
 	}
-	err = ri.output.SetRunId(ctx, sOffset.RunId)
+	if ro, ok := ri.output.(interface {
+		ResetRunId(ctx context.Context, runId string) error
+	}); ok && isFullSync {
+		// the stored position belongs to the data (and, after a fail-over, to the history) the full sync replaces :
+		// re-keyed to the new run id with its old offset it would let a later start resume where it must not
+		err = ro.ResetRunId(ctx, sOffset.RunId)
+	} else {
+		err = ri.output.SetRunId(ctx, sOffset.RunId)
+	}
 	if err != nil {
 		ri.logger.Errorf("output SetRunId error : offset(%v), err(%v)", sOffset, err)
 		return
